@@ -1,6 +1,6 @@
 // C11: copies are complete, equal to the source and independent of it.
 // args: <grid spec> <history> <how> <begin> <end> <mutate>
-//   history: 0 loaded | 1 loaded + pending refinement | 2 active construction (some samples loaded, some parked)
+//   history: 0 loaded | 1 loaded + pending refinement | 2 active construction (some samples loaded, some parked) | 3 solver-chosen (three steps, see solverChosenHistory in tgrid.hpp)
 //   how: 0 copy constructor | 1 assignment | 2 copyGrid(src) | 3 copyGrid(src, begin, end)
 //   mutate: 0 mutate the source afterwards | 1 mutate the copy afterwards
 #include "tgrid.hpp"
@@ -51,7 +51,8 @@ int main(int argc, char **argv){
   TasmanianSparseGrid src; makeGrid(src, g);
   SymModel model(outs, 1000, -1.0, 1.0, g.family != "wavelet");
   std::vector<double> probe; for (int p=0;p<2;p++) for (int j=0;j<d;j++){ double lo = g.transform ? g.ta[j] : (g.family == "fourier" ? 0.0 : -1.0), hi = g.transform ? g.tb[j] : 1.0; probe.push_back(lo + (0.23 + 0.41 * p + 0.06 * j) * (hi - lo)); }
-  if (history == 2){
+  if (history == 3){ if (outs > 0) solverChosenHistory(src, g, model, 3, 70); }
+  else if (history == 2){
     src.beginConstruction();
     for (int round=0; round<2; round++){
       std::vector<double> cand = (src.isLocalPolynomial() || src.isWavelet()) ? src.getCandidateConstructionPoints(0.0, refine_fds, -1, g.ll) : src.getCandidateConstructionPoints(type_iptotal, 0, g.ll);
@@ -81,7 +82,7 @@ int main(int argc, char **argv){
     compare(observe(rb, probe), os, b, e, "grid restored from the binary image of the copy");
   }
   // pending construction data behaves the same: the same candidates are offered
-  if (history == 2){
+  if (src.isUsingConstruction()){
     auto cands = [&](TasmanianSparseGrid &gr){ return (gr.isLocalPolynomial() || gr.isWavelet()) ? gr.getCandidateConstructionPoints(0.0, refine_classic, -1, g.ll) : gr.getCandidateConstructionPoints(type_level, 0, g.ll); };
     // the order of the candidates is a priority that depends on the outputs: for a strict sub-range compare them as sets
     auto canon = [&](std::vector<double> c){ if (!(b == 0 && e == outs)){ std::vector<std::vector<double>> p; for (size_t i=0;i+d<=c.size();i+=d) p.push_back(std::vector<double>(c.begin() + i, c.begin() + i + d)); std::sort(p.begin(), p.end()); c.clear(); for (auto &q : p) c.insert(c.end(), q.begin(), q.end()); } return c; };
